@@ -75,7 +75,7 @@ func VerifC15_ContentRoundTrip() {
 	// returned chunk must stay valid across later ReadChunk calls), then reassembles
 	var all []*KV
 	for {
-		chunks, _, eof, err := vPack(cr, mtu)
+		chunks, more, eof, err := vPack(cr, mtu)
 		verif.Assert(err == nil, "chunking never fails for keys that fit the MTU")
 		var total uint16
 		for _, c := range chunks {
@@ -84,6 +84,12 @@ func VerifC15_ContentRoundTrip() {
 		}
 		verif.Assert(total <= mtu, "a batch of chunks fits the MTU")
 		if eof {
+			break
+		}
+		if !more {
+			// the device stops sending after a message without IsMoreServiceInfo: nothing may be left behind
+			rest, _, eof2, err := vPack(cr, mtu)
+			verif.Assert(err == nil && eof2 && len(rest) == 0, "a batch that does not announce more service info is the last one (nothing is left unsent)")
 			break
 		}
 		rounds++
@@ -157,13 +163,24 @@ func VerifC15_BudgetSymbolic() {
 	verif.Reached("end")
 }
 
-// an explicit yield (ForceNewMessage) ends the batch: what follows goes into the next one.
+// an explicit yield (ForceNewMessage) ends the batch: what follows goes into the next
+// one and is not lost - also when the message before the yield ends exactly at a
+// batch boundary, and when the yield is the first thing written
 func VerifC15_YieldStartsNewBatch() {
 	verif.NoPanic()
-	verif.Bound("C15 yield", "message A (1..3 bytes), yield, message B (1..3 bytes); MTU 64 so that both would fit one batch")
+	verif.Bound("C15 yield", "optional leading yield; message A (1..9 symbolic bytes), yield, message B (1..3 bytes); MTU every value 12..40 and 64 (so that A fits with room to spare, ends exactly at the batch boundary, or spans batches)")
 	cr, uw := NewChunkOutPipe(8)
-	a := verif.Bytes("a", 1+verif.Choose("na", 3))
+	a := verif.Bytes("a", 1+verif.Choose("na", 9))
 	b := verif.Bytes("b", 1+verif.Choose("nb", 3))
+	mtus := 30
+	mi := verif.Choose("mtu", mtus)
+	mtu := uint16(12 + mi)
+	if mi == mtus-1 {
+		mtu = 64
+	}
+	if verif.Choose("leadingyield", 2) == 1 {
+		verif.Assert(uw.ForceNewMessage() == nil, "leading ForceNewMessage")
+	}
 	verif.Assert(uw.NextServiceInfo("m", "a") == nil, "NextServiceInfo a")
 	_, err := uw.Write(a)
 	verif.Assert(err == nil, "Write a")
@@ -172,11 +189,31 @@ func VerifC15_YieldStartsNewBatch() {
 	_, err = uw.Write(b)
 	verif.Assert(err == nil, "Write b")
 	verif.Assert(uw.Close() == nil, "Close")
-	first, _, eof, err := vPack(cr, 64)
-	verif.Assert(err == nil && !eof, "first batch")
-	verif.Assert(len(first) == 1 && first[0].Key == "m:a" && verif.BytesEq(first[0].Val, a), "the batch before the yield carries exactly message A")
-	second, _, _, err := vPack(cr, 64)
-	verif.Assert(err == nil, "second batch")
-	verif.Assert(len(second) == 1 && second[0].Key == "m:b" && verif.BytesEq(second[0].Val, b), "the batch after the yield carries message B")
+	// the device's send loop: batches are sent while the previous one announced more
+	var gotA, gotB []byte
+	sawB := false
+	for round := 0; ; round++ {
+		verif.Assert(round < 30, "the exchange terminates")
+		chunks, more, eof, err := vPack(cr, mtu)
+		verif.Assert(err == nil, "batch")
+		inBatchA, inBatchB := false, false
+		for _, c := range chunks {
+			if c.Key == "m:a" {
+				verif.Assert(!sawB, "A comes before B")
+				gotA = append(gotA, c.Val...)
+				inBatchA = true
+			} else {
+				verif.Assert(c.Key == "m:b", "only the written keys come out")
+				gotB = append(gotB, c.Val...)
+				inBatchB, sawB = true, true
+			}
+		}
+		verif.Assert(!(inBatchA && inBatchB), "what follows the yield is never in the same batch as what precedes it")
+		if eof || !more {
+			break
+		}
+	}
+	verif.Assert(verif.BytesEq(gotA, a), "message A arrives complete")
+	verif.Assert(verif.BytesEq(gotB, b), "message B, written after the yield, is sent (not left behind when the device stops after a batch without IsMoreServiceInfo)")
 	verif.Reached("end")
 }
